@@ -114,8 +114,18 @@ def f11():
     g = it.get_pva()
     return g.lat != 50.0, f"get_pva().lat = {g.lat!r} (expected 50.0), roll = {g.roll!r}"
 
+def f12():
+    from pyins import kalman
+    rng = np.random.RandomState(3)
+    F = rng.randn(12, 12) - 5.2 * np.eye(12)
+    B = rng.randn(12, 12); Q = B @ B.T
+    Phi, Qd = kalman.compute_process_matrices(F, Q, 10.0)
+    asym = float(np.max(np.abs(Qd - Qd.T)) / np.max(np.abs(Qd)))
+    return asym > 1e-9, "relative asymmetry of Qd = %.3g" % asym
+
+
 if __name__ == "__main__":
-    which = sys.argv[1:] or ["F1", "F2", "F2b", "F3", "F3b", "F4", "F5", "F7", "F10", "F11"]
-    table = dict(F1=f1, F2=f2, F2b=f2b, F3=f3, F3b=f3b, F4=f4, F5=f5, F7=f7, F10=f10, F11=f11)
+    which = sys.argv[1:] or ["F1", "F2", "F2b", "F3", "F3b", "F4", "F5", "F7", "F10", "F11", "F12"]
+    table = dict(F1=f1, F2=f2, F2b=f2b, F3=f3, F3b=f3b, F4=f4, F5=f5, F7=f7, F10=f10, F11=f11, F12=f12)
     for w in which:
         run(w, table[w])
